@@ -85,6 +85,13 @@ def scan():
         t["int_to_decimal_pow_i32"] = 1          # `10` is an i32 literal: 10.pow(scale) overflows for scale >= 10
     else:
         t["int_to_decimal_pow_i32"] = 0          # the power is taken on the decimal primitive
+    m = re.search(r"impl<D1, D2> CastFunction for DecimalToDecimal<D1, D2>.*?\n\}", td, re.S)
+    blk = m.group(0) if m else ""
+    if not blk:
+        t["decimal_to_decimal_validates"] = None
+    else:
+        # 1: the rescaled value is validated against the target precision before it is stored
+        t["decimal_to_decimal_validates"] = 1 if re.search(r"validate_precision\(\s*v\s*,\s*state\.precision\s*\)", blk) else 0
     return t
 
 
